@@ -12,7 +12,7 @@ normalisation.  Not decided: which broker *is* the leader (run-time metadata).
 import ast
 
 from ..model import self_attr, unparse, walk_body_shallow
-from .util import call_name, call_recv, calls_in, kwarg, need, norm, where
+from .util import list_adds, call_name, call_recv, calls_in, kwarg, need, norm, where
 
 TECHNIQUE = "def-use of the grouping key and payload, lock-step append pairing, loop/except fall-through order, who-may-construct"
 EXPLANATION = (
@@ -133,9 +133,12 @@ def run(ctx):
 
     # ---- R5 accounting
     r = ctx.rule("R5", "a failed broker result puts every payload of that request on the failed list; the error carries both lists", 2, "A")
-    fe = [c for c in [x for x in walk_body_shallow(sba.body) if isinstance(x, ast.Call)] if call_name(c) == "extend"]
     zv = [unparse(e) for e in zl[0].stmt.target.elts] if zl else []
-    ok = len(fe) == 1 and isinstance(fe[0].args[0], ast.ListComp) and zv and norm(fe[0].args[0].generators[0].iter) == zv[1]
+    # the operation that records the payloads of one result: adds (payload, <response>) for every payload of that result
+    zbody = cf.reach([zl[0].id], avoid=[t for t, lab in cf.succ[zl[0].id] if lab == ("iter", False)]) if zl else set()
+    adds = [a for a in list_adds(sba) if a[2] is not None and zv and norm(a[2]) == zv[1] and cf.containing(a[4]) and cf.containing(a[4])[0].id in zbody]
+    fe = [a[4] for a in adds]
+    ok = len(adds) == 1 and isinstance(adds[0][1], ast.Tuple) and len(adds[0][1].elts) == 2 and norm(adds[0][1].elts[0]) == norm(adds[0][3])
     if ok:
         # recorded for EVERY failed result: the only condition the statement may depend on is the result's own flag
         en = cf.containing(fe[0])[0]
